@@ -23,6 +23,10 @@ JoinQuoted(gs, i) == IF i > Len(gs) THEN <<>> ELSE <<"Q">> \o gs[i] \o <<"Q">> \
 Key(u) == IF KeyMode = "nul" THEN u.pat \o JoinNul(u.groups, 1) ELSE <<"Q">> \o u.pat \o <<"Q">> \o JoinQuoted(u.groups, 1)
 \* u.refs = the group numbers the pattern refers to, in order (\2\1 -> <<2, 1>>); the compiled pattern is identified by
 \* the pattern text and the texts of exactly those groups
+\* a use whose pattern refers to a group its parent match does not have cannot be expanded: the call fails with a located
+\* error AND NOTHING IS STORED (a failed expansion must not poison the cache)
+Fails(u) == \E k \in 1..Len(u.refs) : u.refs[k] + 1 > Len(u.groups)
+Failure == <<"error">>
 Compile(u) == <<u.pat, [k \in 1..Len(u.refs) |-> IF u.refs[k] + 1 <= Len(u.groups) THEN u.groups[u.refs[k] + 1] ELSE <<"missing">>]>>
 
 AllUses == UNION Histories \cup UNION {UNION {{C[p][i] : i \in 1..Len(C[p])} : p \in Procs} : C \in Scenarios}
@@ -43,7 +47,7 @@ vars == <<Calls, History, cache, pc, idx, loc, res, sched>>
 RECURSIVE Seed(_, _)
 Seed(c, us) == IF us = {} THEN c
                ELSE LET u == CHOOSE x \in us : TRUE IN
-                    Seed(IF c[Key(u)] = None THEN [c EXCEPT ![Key(u)] = Compile(u)] ELSE c, us \ {u})
+                    Seed(IF c[Key(u)] = None /\ ~Fails(u) THEN [c EXCEPT ![Key(u)] = Compile(u)] ELSE c, us \ {u})
 
 Init == /\ Calls \in Scenarios /\ History \in Histories
         /\ cache = Seed([k \in Keys |-> None], History)
@@ -59,6 +63,10 @@ CacheLoad(p) ==
      THEN /\ res' = [res EXCEPT ![p] = Append(@, cache[Key(Cur(p))])]
           /\ pc' = [pc EXCEPT ![p] = Advance(p)] /\ idx' = [idx EXCEPT ![p] = @ + 1] /\ UNCHANGED loc
           /\ sched' = Append(sched, <<p, "load", "hit">>)
+     ELSE IF Fails(Cur(p))
+     THEN /\ res' = [res EXCEPT ![p] = Append(@, Failure)]              \* the lexing call ends with the error
+          /\ pc' = [pc EXCEPT ![p] = "done"] /\ UNCHANGED <<loc, idx>>
+          /\ sched' = Append(sched, <<p, "load", "fail">>)
      ELSE /\ loc' = [loc EXCEPT ![p] = Compile(Cur(p))] /\ pc' = [pc EXCEPT ![p] = "store"] /\ UNCHANGED <<res, idx>>
           /\ sched' = Append(sched, <<p, "load", "miss">>)
   /\ UNCHANGED <<cache, Calls, History>>
@@ -74,8 +82,9 @@ Spec == Init /\ [][Next]_vars /\ WF_vars(Next)
 AllDone == \A p \in Procs : pc[p] = "done"
 \* every pattern a call obtained is the one its (pattern, groups) denotes: the call equals the same call on a fresh
 \* definition used in isolation, for every interleaving and every earlier history
-ResultsSequential == \A p \in Procs : \A i \in 1..Len(res[p]) : res[p][i] = Compile(Calls[p][i])
-CacheCoherent == \A u \in AllUses : cache[Key(u)] = None \/ cache[Key(u)] = Compile(u)
+Denotes(u) == IF Fails(u) THEN Failure ELSE Compile(u)
+ResultsSequential == \A p \in Procs : \A i \in 1..Len(res[p]) : res[p][i] = Denotes(Calls[p][i])
+CacheCoherent == \A u \in AllUses : cache[Key(u)] = None \/ (~Fails(u) /\ cache[Key(u)] = Compile(u))
 KeyInjective == \A u, v \in AllUses : Key(u) = Key(v) => Compile(u) = Compile(v)
 Terminates == <>AllDone
 =============================================================================
